@@ -8,6 +8,7 @@ import (
 	"context"
 	"fmt"
 	"io"
+	"strings"
 	"sync"
 	"sync/atomic"
 	"time"
@@ -149,16 +150,20 @@ func lateCancel(c *Ctx, im *Impl) {
 			}
 		}
 		s.Hangup()
-		s.waitClosed(5 * time.Second)
-		time.Sleep(2 * time.Millisecond)
 		im.Hist("late-cancel-session")
 		im.Count("late-cancel "+id, true)
+		if !s.waitClosed(time.Second) {
+			break // reported below as hangup-not-closed; no point in waiting a second per session
+		}
+		time.Sleep(2 * time.Millisecond)
 	}
 	tries := len(sessions)
 	closed := 0
 	for _, s := range sessions {
-		if s.waitClosed(5 * time.Second) {
+		if s.waitClosed(time.Second) {
 			closed++
+		} else {
+			break
 		}
 	}
 	time.Sleep(300 * time.Millisecond)
@@ -330,8 +335,16 @@ func gateRace(c *Ctx, im *Impl) {
 		for _, s := range ss {
 			s.Hangup()
 		}
+		unclosed := 0
 		for _, s := range ss {
-			s.waitClosed(2 * time.Second)
+			if unclosed == 0 && !s.waitClosed(time.Second) {
+				unclosed++
+			}
+		}
+		if unclosed > 0 {
+			im.Violate(fmt.Sprintf("a session announcing %q was hung up by the peer and is not closed by the node within 1 s", id), "hangup-not-closed", rec)
+			rounds++
+			break
 		}
 		for t0 := time.Now(); listed(id) > 0 && time.Since(t0) < 500*time.Millisecond; {
 			time.Sleep(time.Millisecond)
@@ -346,4 +359,243 @@ func gateRace(c *Ctx, im *Impl) {
 		}
 	}
 	im.Extra["gate_race_rounds"] = rounds
+}
+
+// ---------- every way a session can end, at every stage ----------
+
+// faultSess: a scripted session whose Recv / Send can be made to fail.
+type faultSess struct {
+	*ScriptSess
+	fmu      sync.Mutex
+	recvErr  error
+	sendFail bool
+}
+
+func (f *faultSess) Recv(timeout time.Duration) ([]byte, error) {
+	deadline := time.Now().Add(timeout)
+	for {
+		f.fmu.Lock()
+		e := f.recvErr
+		f.fmu.Unlock()
+		if e != nil {
+			return nil, e
+		}
+		b, err := f.ScriptSess.Recv(10 * time.Millisecond)
+		if err == netceptor.ErrTimeout && time.Now().Before(deadline) {
+			continue
+		}
+		return b, err
+	}
+}
+
+func (f *faultSess) Send(b []byte) error {
+	f.fmu.Lock()
+	fail := f.sendFail
+	f.fmu.Unlock()
+	if fail {
+		return fmt.Errorf("write: broken pipe")
+	}
+	return f.ScriptSess.Send(b)
+}
+
+type endingResult struct {
+	ok      bool
+	what    string
+	sig     string
+	elapsed time.Duration
+}
+
+// oneEnding: bring a session announcing "omega" to the given stage, end it in the given way, and
+// require (property text: "a connection is forgotten as soon as its session ends") that within
+// the bound the node has closed the session and the ID is gone from Status().Connections, from
+// the node's own cost row and from the routing table, and that a new session announcing the same
+// ID is admitted right afterwards.
+func oneEnding(way, stage string) endingResult {
+	maxIdle := time.Hour
+	if way == "idle-timeout" {
+		maxIdle = 300 * time.Millisecond
+	}
+	ctx, cancel := context.WithCancel(context.Background())
+	defer cancel()
+	n := netceptor.NewWithConsts(ctx, selfID, 16384, time.Hour, time.Hour, time.Hour, 30, maxIdle)
+	n.Logger.SetOutput(io.Discard)
+	defer n.Shutdown()
+	pc, err := n.ListenPacket("probe")
+	if err != nil {
+		return endingResult{what: "harness: " + err.Error(), sig: "harness-error"}
+	}
+	go func() {
+		buf := make([]byte, 4096)
+		for {
+			if _, _, err := pc.ReadFrom(buf); err != nil {
+				return
+			}
+		}
+	}()
+	const id = "omega"
+	s := &faultSess{ScriptSess: NewScriptSess()}
+	sctx, scancel := context.WithCancel(ctx)
+	defer scancel()
+	go func() { _ = n.VerifRunProtocol(sctx, s, netceptor.VerifBackendInfo(1.0, nil, nil)) }()
+	sent := 0
+	push := func(b []byte) bool {
+		s.queue <- b
+		s.queue <- []byte{0xff}
+		sent += 2
+		return s.waitConsumed(sent, 2*time.Second)
+	}
+	state := func() (conn, row, route bool) {
+		st := n.Status()
+		for _, c := range st.Connections {
+			if c.NodeID == id {
+				conn = true
+			}
+		}
+		_, row = st.KnownConnectionCosts[selfID][id]
+		_, route = st.RoutingTable[id]
+		return
+	}
+	if stage != "before-handshake" {
+		if !push(hsMsg(id)) {
+			return endingResult{what: "harness: handshake not consumed", sig: "harness-error"}
+		}
+		for t0 := time.Now(); time.Since(t0) < 2*time.Second; time.Sleep(2 * time.Millisecond) {
+			if c, r, rt := state(); c && r && rt {
+				break
+			}
+		}
+		if c, r, rt := state(); !(c && r && rt) {
+			return endingResult{what: fmt.Sprintf("harness: session not established and routed within 2 s (conn=%v row=%v route=%v)", c, r, rt), sig: "harness-error"}
+		}
+	} else {
+		// let the session start (its first hello message shows runProtocol is running)
+		for t0 := time.Now(); time.Since(t0) < time.Second && len(s.Sent()) == 0; time.Sleep(time.Millisecond) {
+		}
+	}
+	if stage == "established-both-ways" || stage == "data-flowing" {
+		f := ruFields{Node: id, UID: "direct-1", Fwd: id, Epoch: 3, Seq: 2, Conns: map[string]float64{selfID: 1}}
+		if !push(msg(1, f.tree(), nil)) {
+			return endingResult{what: "harness: direct update not consumed", sig: "harness-error"}
+		}
+	}
+	if stage == "data-flowing" {
+		for i := 0; i < 40; i++ {
+			s.queue <- dataPacket(5, nameHash(id), nameHash(selfID), "c", "probe", []byte(fmt.Sprintf("flow-%d", i)))
+		}
+	}
+	// the ending
+	bound := 500 * time.Millisecond
+	t0 := time.Now()
+	switch way {
+	case "recv-eof":
+		s.Hangup() // Recv returns io.EOF: the peer closed its end in an orderly way
+	case "recv-error":
+		s.fmu.Lock()
+		s.recvErr = fmt.Errorf("read: connection reset by peer")
+		s.fmu.Unlock()
+	case "send-fails":
+		s.fmu.Lock()
+		s.sendFail = true
+		s.fmu.Unlock()
+		if stage == "before-handshake" {
+			bound = 1600 * time.Millisecond // the next hello is written within a second
+		} else {
+			// make the node write to the session: a helper neighbour's update is flooded to it
+			h := NewScriptSess()
+			_ = n.AddBackend(&oneShot{h}, netceptor.BackendConnectionCost(1.0))
+			h.queue <- hsMsg("helper")
+			h.queue <- []byte{0xff}
+			h.waitConsumed(2, 2*time.Second)
+			t0 = time.Now()
+			h.queue <- msg(1, ruFields{Node: "far", UID: "far-1", Fwd: "helper", Epoch: 9, Seq: 1, Conns: map[string]float64{"helper": 1}}.tree(), nil)
+		}
+	case "context-cancelled":
+		scancel() // the backend's context ends
+	case "idle-timeout":
+		bound = maxIdle + 5*time.Second + 1500*time.Millisecond // the idle monitor looks every 5 s
+	}
+	var c, r, rt bool
+	closed := false
+	for time.Since(t0) < bound {
+		closed = s.IsClosed()
+		c, r, rt = state()
+		if closed && !c && !r {
+			break
+		}
+		time.Sleep(2 * time.Millisecond)
+	}
+	el := time.Since(t0)
+	if !closed || c || r {
+		return endingResult{elapsed: el, sig: "ended-session-still-connected:" + way,
+			what: fmt.Sprintf("session ended (%s, stage %s): after %s the node has closed it=%v, still in Status().Connections=%v, in its own cost row=%v, routed=%v", way, stage, bound, closed, c, r, rt)}
+	}
+	// the routing table is recomputed by its own goroutine (0.1 s after the request)
+	for t1 := time.Now(); rt && time.Since(t1) < time.Second; time.Sleep(5 * time.Millisecond) {
+		_, _, rt = state()
+	}
+	if rt {
+		return endingResult{elapsed: el, sig: "ended-session-still-routed:" + way,
+			what: fmt.Sprintf("session ended (%s, stage %s): 1 s after the connection was removed the routing table still has a route to it", way, stage)}
+	}
+	// the same peer comes back
+	s2 := NewScriptSess()
+	_ = n.AddBackend(&oneShot{s2}, netceptor.BackendConnectionCost(1.0))
+	s2.queue <- hsMsg(id)
+	s2.queue <- []byte{0xff}
+	s2.waitConsumed(2, 2*time.Second)
+	time.Sleep(5 * time.Millisecond)
+	if c, _, _ := state(); !c || s2.IsClosed() {
+		return endingResult{elapsed: el, sig: "readmission-refused:" + way,
+			what: fmt.Sprintf("session ended (%s, stage %s): a new session announcing the same ID right afterwards is not admitted (closed=%v reject=%v listed=%v)", way, stage, s2.IsClosed(), s2.Obs().Reject, c)}
+	}
+	return endingResult{ok: true, elapsed: el}
+}
+
+func sessionEndings(c *Ctx, im *Impl) {
+	ways := []string{"recv-eof", "recv-error", "send-fails", "context-cancelled", "idle-timeout"}
+	stages := []string{"before-handshake", "established-one-sided", "established-both-ways", "data-flowing"}
+	type job struct{ way, stage string }
+	var jobs []job
+	reps := 2
+	if c.Thorough() {
+		reps = 8
+	}
+	for rep := 0; rep < reps; rep++ {
+		for _, w := range ways {
+			for _, st := range stages {
+				if w == "idle-timeout" && (st == "before-handshake" || rep > 0) {
+					continue // not established: nothing for the idle monitor to look at; one pass (6 s each)
+				}
+				jobs = append(jobs, job{w, st})
+			}
+		}
+	}
+	res := make([]endingResult, len(jobs))
+	var wg sync.WaitGroup
+	sem := make(chan struct{}, 6)
+	for i := range jobs {
+		wg.Add(1)
+		sem <- struct{}{}
+		go func(i int) {
+			defer wg.Done()
+			defer func() { <-sem }()
+			res[i] = oneEnding(jobs[i].way, jobs[i].stage)
+		}(i)
+	}
+	wg.Wait()
+	reported := map[string]bool{}
+	for i, j := range jobs {
+		r := res[i]
+		im.Hist("session-ending:" + j.way)
+		im.Hist("session-ending-stage:" + j.stage)
+		im.Count(fmt.Sprintf("ending %s %s %d", j.way, j.stage, i), true)
+		if !r.ok && !strings.HasPrefix(r.sig, "harness") {
+			// the bounds are wall-clock: confirm alone before reporting
+			r = oneEnding(j.way, j.stage)
+		}
+		if !r.ok && !reported[r.sig+j.stage] {
+			reported[r.sig+j.stage] = true
+			im.Violate(r.what, r.sig, map[string]interface{}{"way": j.way, "stage": j.stage, "elapsed_ms": r.elapsed.Milliseconds()})
+		}
+	}
 }
